@@ -298,6 +298,7 @@ def worker_reports(ck, ctx):
 
 
 def run(ck, ctx):
+    C.adapter_census(ck, ctx, "loop-shape", ("work::", "task::"))
     cycle_first(ck, ctx)
     validation(ck, ctx)
     # a slot that is not given back when a build leaves Running (for Done *or* Failed) strands the rest of its pool: they are never decided
@@ -309,6 +310,9 @@ def run(ck, ctx):
     ck.ob("pending-paired", "terminal-states", not any(p in ("Failed", "Done") for p, n in rel), "Done and Failed have no outgoing transition (relation %s)" % rel, span=SM.SET)
     loop_shape(ck, ctx)
     worker_reports(ck, ctx)
+    # a queued step of a pool with a free slot is always handed out (a gate stricter than the bound would strand it)
+    from . import C04 as R04
+    R04.pool_gate(ck, ctx)
     from . import fancy as FY
     FY.shutdown(ck, ctx)
     FY.thread(ck, ctx)
